@@ -274,3 +274,105 @@ V("C07", "C07.R5", "c07-shared-default-mutated", "shroud/typemap.py",
         # The struct from the user's library is used.
         # XXX - if struct in class, uses class.cxx_header?
         ntypemap.c_header.extend(libnode.cxx_header)''', "fire", "c_header")
+
+# ---------------------------------------------------------------------------
+# C15
+# ---------------------------------------------------------------------------
+V("C15", "C15.R1", "c15-wrapf-under-c-flag", "shroud/main.py",
+  '''        if wrap.fortran:
+            wrapf.Wrapf(newlibrary, config, splicers["f"]).wrap_library()''',
+  '''        if wrap.c:
+            wrapf.Wrapf(newlibrary, config, splicers["f"]).wrap_library()''', "fire", "Wrapf")
+V("C15", "C15.R1", "c15-lua-unguarded", "shroud/main.py",
+  '''        if wrap.lua:
+            wrapl.Wrapl(newlibrary, config, splicers["lua"]).wrap_library()''',
+  '''        if True:
+            wrapl.Wrapl(newlibrary, config, splicers["lua"]).wrap_library()''', "fire", "Wrapl")
+V("C15", "C15.R1", "c15-python-before-utility", "shroud/main.py",
+  '''        clibrary.write_impl_utility()
+
+        if wrap.python:
+            wrapp.Wrapp(newlibrary, config, splicers["py"]).wrap_library()
+''',
+  '''        if wrap.python:
+            wrapp.Wrapp(newlibrary, config, splicers["py"]).wrap_library()
+
+        clibrary.write_impl_utility()
+''', "fire", "order:Wrapp")
+V("C15", "C15.R2", "c15-cfiles-append-removed", "shroud/wrapc.py",
+  '''        if write_file:
+            self.config.cfiles.append(
+                os.path.join(self.config.c_fortran_dir, fname)
+            )
+            self.write_output_file(fname, self.config.c_fortran_dir, output)
+
+    def write_header_utility(self):''',
+  '''        if write_file:
+            self.write_output_file(fname, self.config.c_fortran_dir, output)
+
+    def write_header_utility(self):''', "fire", "write_impl_utility")
+V("C15", "C15.R2", "c15-ffiles-wrong-dir", "shroud/wrapf.py",
+  '''        self.config.ffiles.append(
+            os.path.join(self.config.c_fortran_dir, fname)
+        )''',
+  '''        self.config.ffiles.append(
+            os.path.join(self.config.out_dir, fname)
+        )''', "fire", "Wrapf.write_module")
+V("C15", "C15.R2", "c15-lua-header-python-dir", "shroud/wrapl.py",
+  "        self.write_output_file(fname, self.config.lua_dir, output)\n\n    def append_luaL_Reg",
+  "        self.write_output_file(fname, self.config.python_dir, output)\n\n    def append_luaL_Reg",
+  "fire", "Wrapl.write_header")
+V("C15", "C15.R2", "c15-python-registers-cfile", "shroud/wrapp.py",
+  "        self.config.pyfiles.append(os.path.join(self.config.python_dir, fname))\n        self.write_output_file(fname, self.config.python_dir, output)\n\n    def multi_dispatch",
+  "        self.config.cfiles.append(os.path.join(self.config.python_dir, fname))\n        self.write_output_file(fname, self.config.python_dir, output)\n\n    def multi_dispatch",
+  "fire", "cfiles")
+V("C15", "C15.R3", "c15-default-args-unconditional", "shroud/generate.py",
+  "new.wrap.assign(c=node.wrap.c, fortran=node.wrap.fortran)",
+  "new.wrap.assign(c=True, fortran=True)", "fire", "has_default_args")
+V("C15", "C15.R3", "c15-bufferify-guard-removed", "shroud/generate.py",
+  '''        if node.wrap.fortran is False:
+            # The buffer function is intended to be called by Fortran.
+            # No Fortran, no need for buffer function.
+            return
+        if options.F_string_len_trim is False:''',
+  '''        if options.F_string_len_trim is False:''', "fire", "result_as_arg")
+V("C15", "C15.R3", "c15-bufferify-both-guards-removed", "shroud/generate.py",
+  '''        if node.wrap.c is False:
+            # The user does not require a C wrapper.
+            # This can be the case if the Fortran wrapper is doing all
+            # the work via splicer or fstatements.
+            return
+''',
+  '''        pass
+''', "silent")
+V("C15", "C15.R3", "c15-generic-caller-guard-removed", "shroud/generate.py",
+  '''            if not method.wrap.fortran:
+                continue
+            if method._gen_fortran_generic''',
+  '''            if method._gen_fortran_generic''', "fire", "generic_function")
+V("C15", "C15.R4", "c15-wrapc-reads-python-flag", "shroud/wrapc.py",
+  '''        options = node.options
+        if not node.wrap.c:
+            return
+
+        if cls:
+            cls_function = "method"''',
+  '''        options = node.options
+        if not node.wrap.c:
+            return
+        if node.wrap.python and options.PY_array_arg == "numpy":
+            pass
+
+        if cls:
+            cls_function = "method"''', "fire", "wrap_function")
+V("C15", "C15.R5", "c15-wrapc-entry-guard-removed", "shroud/wrapc.py",
+  '''        options = node.options
+        if not node.wrap.c:
+            return
+
+        if cls:
+            cls_function = "method"''',
+  '''        options = node.options
+
+        if cls:
+            cls_function = "method"''', "fire", "Wrapc.wrap_function")
